@@ -12,7 +12,8 @@ EXPLANATION = (
     'argument of a user callback without passing a deep-copy point. R11.2: '
     'no user-owned object (public-API parameter, user callback result) is '
     'stored in a record or cache without passing the sanitiser. Decides the '
-    'whole property relative to the copy primitives being deep.')
+    'whole property relative to the copy primitives being deep.'
+    ' R11.3: the sanitiser used as a copy point returns fresh structure (R18.1).')
 
 IMMUTABLE_CLASSES = {'str', 'int', 'float', 'bool', 'bytes'}
 
